@@ -8,7 +8,8 @@
    (identity for MemoryStorage).  When a callable fails nothing is changed (the None case). *)
 From Coq Require Import List ZArith NArith Bool.
 From TF Require Import Base Query Index DB Spec proofs.IndexDefs proofs.BaseP proofs.RepP proofs.DBReadP proofs.DBRemoveP
-     proofs.DBStepP proofs.DBRunP proofs.DBSpecP proofs.UpdateP.
+     proofs.DBStepP proofs.DBRunP proofs.DBSpecP proofs.UpdateP ReadSem UpdateSem proofs.UpdateGenP.
+From TF Require gen.UpdateGen.
 Import ListNotations.
 
 Theorem C03_update_exact : forall E C norm, (forall p, wf_point p -> wf_point (norm p)) ->
@@ -69,6 +70,37 @@ Theorem C03_static_update_idempotent : forall C u p p', static_update u -> wf_po
   perform_update C u p = UOk p' -> perform_update C u p' = UOk p'.
 Proof. exact static_update_idempotent. Qed.
 
+(* what an update decides around its per-point updater, REGENERATED from tinyflux/database.py on every run (gen/UpdateGen.v: _update_helper executed
+   symbolically - is the index asked (never for update_all) and with which query; nothing named: 0; everything named: the scan; the rewrite inside
+   try / except; nothing changed: 0 and nothing swapped in; else the index dropped, the staged rows swapped in, the index rebuilt when automatic
+   indexing is on - with update and update_all), is the model's update for every state, query, valid arguments and measurement filter; hence the
+   functions as the source defines them, decorators included, update exactly the selected points by exactly the given arguments *)
+Theorem C03_source_update_helper_is_the_model : forall E C norm s ua q u m, upd_given u = true ->
+  UpdateGen.gen_update_helper E C norm s ua q u m = update_helper E C norm s ua q (Some u) m.
+Proof. exact gen_update_helper_eq. Qed.
+Theorem C03_source_update_is_the_model : forall E C norm s q u m, upd_given u = true ->
+  UpdateGen.gen_update E C norm s q u m = db_update E C norm s q (Some u) m.
+Proof. exact gen_update_eq. Qed.
+Theorem C03_source_update_all_is_the_model : forall E C norm s u, upd_given u = true ->
+  UpdateGen.gen_update_all E C norm s u = db_update_all E C norm s (Some u).
+Proof. exact gen_update_all_eq. Qed.
+Theorem C03_source_update_exact : forall E C norm, (forall p, wf_point p -> wf_point (norm p)) ->
+  forall s q u m, Inv s -> wf_query E q -> index_safe q -> upd_given u = true ->
+  let r := UpdateGen.gen_update E C norm s q u m in
+  match spec_update_rows C norm (hit E q m) u (st_rows s) with
+  | Some (l, n) => snd r = ONat n /\ st_rows (fst r) = l /\ Inv (fst r)
+  | None => snd r = ORaise /\ fst r = read_prelude s
+  end.
+Proof. exact gen_update_spec. Qed.
+Theorem C03_source_update_all_exact : forall E C norm, (forall p, wf_point p -> wf_point (norm p)) ->
+  forall s u, Inv s -> upd_given u = true ->
+  let r := UpdateGen.gen_update_all E C norm s u in
+  match spec_update_rows C norm (fun _ => true) u (st_rows s) with
+  | Some (l, n) => snd r = ONat n /\ st_rows (fst r) = l /\ Inv (fst r)
+  | None => snd r = ORaise /\ fst r = read_prelude s
+  end.
+Proof. exact gen_update_all_spec. Qed.
+
 Print Assumptions C03_static_update_idempotent.
 Print Assumptions C03_update_exact.
 Print Assumptions C03_merge_key_by_key.
@@ -77,3 +109,8 @@ Print Assumptions C03_tags_semantics.
 Print Assumptions C03_static_is_callable_tags.
 Print Assumptions C03_update_all_exact.
 Print Assumptions C03_shape.
+Print Assumptions C03_source_update_helper_is_the_model.
+Print Assumptions C03_source_update_is_the_model.
+Print Assumptions C03_source_update_all_is_the_model.
+Print Assumptions C03_source_update_exact.
+Print Assumptions C03_source_update_all_exact.
